@@ -8,6 +8,7 @@ the recursion guard is paired; tri-state options are defaulted on `is None`; eac
 version declares its own $schema. Not meta-schema validity of arbitrary outputs.
 """
 import ast
+import re
 from typing import Dict, List, Optional, Set, Tuple
 
 from ..cfg import CFG
@@ -217,8 +218,34 @@ def check(ctx):
     for q in (f"{REFS}.DeserializationRefsExtractor", f"{REFS}.SerializationRefsExtractor", f"{SCH}.DeserializationSchemaBuilder", f"{SCH}.SerializationSchemaBuilder"):
         totality(ctx, "C17.R8", q)
 
+    # ---------------- R10: no definition applies a reference to itself
+    ctx.rule("C17.R10", "the schema built for a class never puts a $ref to that same class among its own allOf members (a self-applying definition makes validation diverge)", floor=1)
+    ob = model.func("apischema.json_schema.schema.SchemaBuilder.object")
+    from ..pathcond import parents_of, path_condition
+    pmo = parents_of(ob.node)
+    n10 = 0
+    for c in ast.walk(ob.node):
+        if isinstance(c, ast.Call) and isinstance(c.func, ast.Attribute) and c.func.attr == "append" and c.args and isinstance(c.args[0], ast.Name):
+            refname = c.args[0].id
+            # where the appended reference comes from: self.ref_schema(get_type_name(P).json_schema)
+            src = next((a.value for a in ast.walk(ob.node) if isinstance(a, ast.Assign) and norm(a.targets[0]) == refname), None)
+            if not (isinstance(src, ast.Call) and norm(src.func) == "self.ref_schema"):
+                continue
+            m_ = re.search(r"get_type_name\((\w+)\)", norm(src))
+            if not m_:
+                continue
+            n10 += 1
+            owner = m_.group(1)
+            cond = norm(path_condition(ob.node, c, pmo))
+            ok = f"{owner} is not cls" in cond or f"cls is not {owner}" in cond or f"{owner} != cls" in cond
+            ctx.check(ok, "C17.R10", f"{ob.qualname}:{refname}", c,
+                      f"`{short(c, 50)}` adds a $ref to `{owner}` to the schema being built for `cls` without excluding {owner} is cls: for a discriminated parent that is itself an object type its definition is {{allOf: [{{$ref: itself}}, ...]}} and validators never terminate",
+                      ob, c, detail=f"guarded by `{owner} is not cls`")
+    ctx.require(n10 >= 1, "SchemaBuilder.object: no reference appended to the allOf members (discriminated parent) found")
+
 
 def mutants(mb):
+    mb.add_text("parent-self-reference", "apischema/json_schema/schema.py", "            if discriminator_parent is not cls:\n                discriminator_ref = self.ref_schema(\n                    get_type_name(discriminator_parent).json_schema\n                )\n                assert discriminator_ref is not None\n                result.append(discriminator_ref)\n", "            discriminator_ref = self.ref_schema(\n                get_type_name(discriminator_parent).json_schema\n            )\n            assert discriminator_ref is not None\n            result.append(discriminator_ref)\n", "C17.R10", "discriminator_ref")
     R = "apischema/json_schema/refs.py"
     S = "apischema/json_schema/schema.py"
     V = "apischema/json_schema/versions.py"
